@@ -18,7 +18,7 @@
    - the model never prunes the conflict log; the implementation prunes entries at or below the read
      watermark, which is harmless by C02_pruning_is_invisible. *)
 From Verif Require Import Bytes Keys Consts Spec Lsm Iter Sys SysRejected TxnLog.
-From Verif Require TxnProofs.
+From Verif Require TxnProofs CompactProofs.
 Open Scope N_scope.
 Import TxnProofs.
 
@@ -76,6 +76,28 @@ Theorem C02_serializable : forall nk nl next ops s L1 c L2 k top,
   spec_latest (s_writes s) k (cr_rts c) None = spec_latest (log_writes L1) k top None.
 Proof. exact TxnProofs.serializable_reads. Qed.
 Print Assumptions C02_serializable.
+
+(* the same on `newest` (what db.get computes, C01/C12), and the link to the values the Gets
+   actually returned: in histories without Compact labels a Get result at timestamp r, taken in any
+   intermediate state whose next timestamp is above r, is the newest write at or below r of the FINAL
+   write history.  Chained: the entry a Get returned inside a transaction that later committed is
+   the entry that Get returns in the serial execution in commit-timestamp order. *)
+Theorem C02_serializable_newest : forall nk nl next ops s L1 c L2 k top,
+  Forall op_api ops -> 0 < next ->
+  exec (init_sys false true nk nl next) ops 0 = (None, s) ->
+  history (init_sys false true nk nl next) ops = L1 ++ c :: L2 -> In k (cr_rd c) -> cr_rts c <= top ->
+  CompactProofs.newest (s_writes s) k (cr_rts c) = CompactProofs.newest (log_writes L1) k top.
+Proof. exact TxnProofs.serializable_reads_newest. Qed.
+Print Assumptions C02_serializable_newest.
+
+Theorem C02_get_result_is_final_partial : forall nk nl next d ops1 ops2 s1 s2 k r,
+  (0 < nl)%nat -> Forall (fun o => op_api o /\ op_nocompact o) (ops1 ++ ops2) ->
+  exec (init_sys false d nk nl next) ops1 0 = (None, s1) ->
+  exec (init_sys false d nk nl next) (ops1 ++ ops2) 0 = (None, s2) ->
+  r < s_next s1 ->
+  db_get (s_db s1) k r = CompactProofs.newest (s_writes s2) k r.
+Proof. exact TxnProofs.get_stable. Qed.
+Print Assumptions C02_get_result_is_final_partial.
 
 (* ... equivalently: no committed write to a key a committed transaction read has a version
    strictly between its read and its commit timestamp *)
